@@ -415,6 +415,9 @@ def toy_finish(ctx, specs, metas, bmetas, impl):
         if meta["kind"] == 1:
             ctx.tally("toy:non-monotone-agrees")
         if (di != di) != (dm != dm) or (di == di and not (abs((di - dm + 180) % 360 - 180) <= 1e-6)):
+            if meta["kind"] == 1:
+                ctx.tally("toy:non-monotone-differs(not reported)")
+                continue
             ctx.disagree("_u10_from_bulk_rate_point returns direction %r, model %r" % (di, dm), rep)
     for bm, im, mo, mp in zip(bmetas, impl[ncase:], mod[ncase:], modb_pert):
         rep = dict(bm, op="_u10_from_spectra with analytic source terms", impl=im, model=" ".join(mo))
@@ -442,7 +445,7 @@ def toy_finish(ctx, specs, metas, bmetas, impl):
                     continue
                 ctx.disagree("_u10_from_spectra member %d: U10 %r, model %r" % (p, ui, um), rep)
                 break
-            if bm["scales"][p] != 0.0 and ((di != di) != (dm != dm) or (di == di and abs((di - dm + 180) % 360 - 180) > 1e-6)):
+            if bm["kind"] != 1 and bm["scales"][p] != 0.0 and ((di != di) != (dm != dm) or (di == di and abs((di - dm + 180) % 360 - 180) > 1e-6)):
                 ctx.disagree("_u10_from_spectra member %d: direction %r, model %r" % (p, di, dm), rep)
                 break
 
@@ -641,10 +644,11 @@ def real_finish(ctx, batches, impl):
                     if at == at and sc[0][1] <= 4.0:
                         ctx.oracle_fail("NaN although the scanned balance changes sign once, in %r: the balance function raises "
                                         "at the visited iterate %r" % (sc[0], at), rep, key=FINDING_KEY)
-                    elif at == at and at < sc[0][0] - 1.0:
-                        # an (Aitken) step overshoots to a low wind speed, far below the root, where the roughness solver raises
+                    elif at == at and at < sc[0][1]:
+                        # a step of the solver (typically the Aitken extrapolation) lands at a lower wind speed than the root,
+                        # where the roughness solver raises
                         overshoot.append(("NaN although the scanned balance changes sign once, in %r: a step of the solver lands at "
-                                          "%r m/s, far below the root, where the balance function (roughness solver) raises"
+                                          "%r m/s, below the root, where the balance function (roughness solver) raises"
                                           % (sc[0], at), rep))
                     elif sea["stream"] != "main" and why.get("twin") != "converged":
                         ctx.tally("real:edge-stream-nan-with-root(not reported)")
